@@ -403,7 +403,21 @@ def payload_reads(chk, rule, prog, eff, cache):
         names = [p["name"] for p in f.params]
         di, li = names.index("data"), names.index("length")
         DATA, LEN = ("arg", di), ("arg", li)
-        for k, pa in enumerate(cache.get(fn)):
+        # library callees that receive the payload pointer are inlined (a builder that delegates the copy to
+        # cbor_build_stringn and the like is still followed down to the bytes it reads)
+        import ownership as O
+        inline = set(O.static_callees(prog, eff, fn))
+        for _round in range(3):
+            more = set()
+            for pa in cache.get(fn, inline=inline):
+                for e in pa.events:
+                    if e.kind == "call" and e.ckind == "lib" and any(isinstance(a, tuple) and P.derives(a, DATA) for a in e.args):
+                        if e.callee not in eff.transitive_callees(e.callee):
+                            more.add(e.callee)
+            if not more - inline:
+                break
+            inline |= more | set().union(*[O.static_callees(prog, eff, m_) for m_ in more])
+        for k, pa in enumerate(cache.get(fn, inline=inline)):
             for e in pa.events:
                 reads = None
                 if e.kind == "call" and e.callee in ("memcpy", "memmove") and isinstance(e.args[1], tuple) and P.derives(e.args[1], DATA):
@@ -420,6 +434,12 @@ def payload_reads(chk, rule, prog, eff, cache):
                 n += 1
                 off, cnt = reads
                 ok = off == 0 and cnt == LEN
+                if not ok and e.kind == "load":
+                    # a single byte read at payload[i] on a path that knows i < length
+                    b_ = P.ptr_key(e.args[0])[0]
+                    i_ = b_[3][-1] if (isinstance(b_, tuple) and b_[0] == "idx" and b_[1] == DATA and b_[3]) else (("c", off) if b_ == DATA and off is not None else None)
+                    if i_ is not None:
+                        ok = pa.st.rel_gt(LEN, i_, upto=e.nfacts)
                 chk.ob(rule, "%s path %d: reads exactly `length` bytes of the payload" % (fn, k), ok, e.ins.loc(), fn=fn,
                        key="%s:payload:%d" % (fn, e.ins.id),
                        detail="" if ok else "reads %s byte(s) at payload+%s although the decoder claimed only `length` bytes" % (fmt_term(cnt) if cnt else "?", off))
